@@ -612,3 +612,14 @@ End Blame.
 (* a value whose type cannot be known is never itself named as the reason of a type error *)
 Theorem any_never_blamed E e d : In d (snd (check E e)) -> ~ In TAny (blamed (d_kind d)).
 Proof. intros H. pose proof (chk_clean merge true E e None) as C. rewrite Forall_forall in C. exact (C d H). Qed.
+
+(* ---- checks of rule_expression.go on the result type ------------------------------- *)
+Lemma template_type_check_mono t t' : looser t t' -> template_ok t = true -> template_ok t' = true.
+Proof.
+  intros L H. destruct (looser_inv _ _ L) as [->|L']; [reflexivity|].
+  destruct t; cbn in L', H; try contradiction; try discriminate; subst; reflexivity.
+Qed.
+Lemma if_type_check_mono t t' : looser t t' -> if_cond_ok t = true -> if_cond_ok t' = true.
+Proof. reflexivity. Qed.
+Lemma typed_input_check_mono d t t' : looser t t' -> typed_input_ok d t = true -> typed_input_ok d t' = true.
+Proof. apply assignable_mono. Qed.
